@@ -32,11 +32,23 @@ func init() {
 				jobs = append(jobs, run.Job{ID: "cache/samehash1/firstfails0/crash1/wfail1", Pkg: pkg, Harness: "H_Objdump",
 					Params: map[string]interface{}{"samehash": 1, "firstfails": 0, "crash": 1, "wfail": 1}, Weight: 20})
 			}
+			// an empty key (hashBinary after a failed read of the binary) in one of the runs
+			for _, e := range []int{1, 2} {
+				for same := 0; same <= 1; same++ {
+					if c.Tier != "thorough" && same == 0 {
+						continue
+					}
+					jobs = append(jobs, run.Job{ID: fmt.Sprintf("cache/samehash%d/firstfails0/crash1/emptyhash%d", same, e), Pkg: pkg, Harness: "H_Objdump",
+						Params: map[string]interface{}{"samehash": same, "firstfails": 0, "crash": 1, "emptyhash": e}, Weight: 10})
+				}
+			}
+			// the lemma under "the exact binary": hashBinary returns an error, the digest of the whole binary, or nothing that can pass for a cache key
+			jobs = append(jobs, run.Job{ID: "hash", Pkg: pkg, Harness: "H_Hash", Params: map[string]interface{}{}})
 			return jobs, nil
 		},
-		NeedCovers: []string{"cover.crashed", "cover.run1_ok", "cover.run1_failed", "cover.run2_ok", "cover.cache_used"},
-		Bounds:     map[string]interface{}{"instances": "quick: same binary x {disassembler ok/fails} x {crash/no crash} + different binary after a failed disassembler; thorough: all eight", "write_failures": "one instance (thorough: two) in which Flush of run 1 may take only a prefix of the buffered data and fail, and Close may fail", "history": "two runs; at most one crash, in the first run, at any of the stub calls (create/createtemp, writestring, objdump, flush, close, sync, rename)", "contents": "hash: any 64 hex digits; disassembly: any text; crash prefix: any prefix (symbolic length)"},
-		Outside:    []string{"real file-system semantics beyond 'a process crash leaves a prefix of what was written; rename is atomic' (no block reordering, no power loss after rename without fsync)", "concurrent profiler runs on the same cache", "hashBinary and cachedDumpFile (stubbed: fixed path, given hash)", "more than two runs"},
+		NeedCovers: []string{"cover.crashed", "cover.run1_ok", "cover.run1_failed", "cover.run2_ok", "cover.cache_used", "cover.hash_ok", "cover.hash_read_failed", "cover.hash_open_failed"},
+		Bounds:     map[string]interface{}{"instances": "quick: same binary x {disassembler ok/fails} x {crash/no crash} + different binary after a failed disassembler; thorough: all eight", "write_failures": "one instance (thorough: two) in which Flush of run 1 may take only a prefix of the buffered data and fail, and Close may fail", "history": "two runs; at most one crash, in the first run, at any of the stub calls (create/createtemp, writestring, objdump, flush, close, sync, rename)", "hash_lemma": "hashBinary over a model binary whose open or read may fail after any number of bytes: without an error it returns the digest of the whole binary or a value that is not 64 characters long; the two-run instances cover 'any 64 hex digits' and the empty key in either run", "contents": "hash: any 64 hex digits; disassembly: any text; crash prefix: any prefix (symbolic length)"},
+		Outside:    []string{"real file-system semantics beyond 'a process crash leaves a prefix of what was written; rename is atomic' (no block reordering, no power loss after rename without fsync)", "concurrent profiler runs on the same cache", "cachedDumpFile (stubbed: a fixed path) and SHA-256 itself (a model hash whose digest distinguishes nothing / a prefix / the whole binary)", "more than two runs"},
 		Assumptions: []string{"os.Open/Create/CreateTemp/Rename/Remove, File.Read/Write/Close/Sync/Name, bufio.Writer, exec.Cmd.Run are a model (harness/cmd/seccomp-profiler/zz_verif_h_cache.go): Create/CreateTemp/Rename may fail; Read returns min(len(buf), size) bytes", "the disassembler's output is a function of the binary (one symbolic text per hash)"},
 		Trusted:    []string{"model file system and crash model (~200 lines of harness)", "gosym engine string layer (str.++, str.prefixof, str.substr, length classes as regular languages)", "z3 4.8.12 and z3 5.1.0 (first definite answer; no independent cross-check for string queries)", "native replay against main.go with doObjdump's selectors rewritten to the same stubs"},
 	})
